@@ -159,6 +159,8 @@ func runC12(c *Ctx) {
 	r.Rule("R8-clear-expires-cookie", "Manager.Clear, which ends an unrefreshable session, expires the cookie on every path even when the store delete fails (shared with C11.R2)", 9)
 	r.Rule("R16-delegate-refreshes-own-session", "a RefreshSession override hands its delegate the caller's own session object, not a scratch copy whose fields are copied back selectively (round 8)", 3)
 	runRefreshOverrideOwnSession(c, "R16-delegate-refreshes-own-session")
+	r.Rule("R17-timer-reset-needs-validation", "for a provider without refresh support the re-stamped session is saved only after the provider re-validated it (KNOWN FINDING on the unchanged tree: defect 17, DESIGN 7)", 1)
+	runTimerResetNeedsValidation(c, "R17-timer-reset-needs-validation")
 	r.Rule("R9-refresh-adopts-tokens", "every provider redeemRefreshToken stores access token, issue time, expiry and (when the response carries one) the refresh token on every success path", 3)
 	r.Rule("R10-age-exact", "Age() = Clock.Now() (truncated by at most 1s) - *CreatedAt, unrounded; needsRefresh = Age() > period", 2)
 	r.Rule("R11-validation-needs-200", "the token-validation helper behind ValidateSession answers true only for status 200 of an error-free request with a non-empty token (shared with C14.R7)", 1)
